@@ -48,3 +48,132 @@ class monitor:
     def __exit__(self, *a):
         _state["on"] = False
         return False
+
+
+# ------------------------------------------------------------------------------------------------ crash injection
+import builtins
+from unittest import mock
+
+
+class CrashNow(BaseException):
+    """raised at the injected crash point; a BaseException so that no 'except Exception' of the tool swallows it"""
+
+
+class _CrashFile:
+    """write-mode file whose every write is one unbuffered, individually interruptible operation"""
+
+    def __init__(self, fs, path, mode):
+        self._fs = fs
+        self._path = path
+        fs._op("open", path)
+        self._f = fs._real_open(path, mode if "b" in mode else mode + "b", buffering=0)
+        self._text = "b" not in mode
+        self.closed = False
+        self.name = path
+        self.mode = mode
+
+    def write(self, data):
+        if self._fs.crashed:
+            raise CrashNow()
+        if self._text and isinstance(data, str):
+            data = data.encode("utf-8")
+        act = self._fs._op("write", self._path, len(data))
+        if act == "half":
+            self._f.write(data[: len(data) // 2])
+            self._fs.crashed = True
+            raise CrashNow()
+        self._f.write(data)
+        return len(data)
+
+    def flush(self):
+        if self._fs.crashed:
+            return
+        self._fs._op("flush", self._path)
+
+    def close(self):
+        if not self.closed:
+            self.closed = True
+            if not self._fs.crashed:
+                self._fs._op("close", self._path)
+            self._f.close()
+
+    def __enter__(self):
+        return self
+
+    def __exit__(self, *a):
+        self.close()
+        return False
+
+    def fileno(self):
+        return self._f.fileno()
+
+    def writable(self):
+        return True
+
+
+class CrashFS:
+    """interposes open-for-write, mkdir, rename/replace and remove below `base`.
+
+    crash_at = None: record only.  crash_at = (k, 'before'): raise CrashNow instead of performing operation k.
+    crash_at = (k, 'half'): operation k must be a write; half of its bytes reach the disk, then CrashNow.
+    After the crash every further mutation is refused, so clean-up code cannot alter the disk."""
+
+    def __init__(self, base, crash_at=None):
+        self.base = os.path.realpath(base)
+        self.crash_at = crash_at
+        self.ops = []
+        self.targets = set()
+        self.crashed = False
+        self._real_open = builtins.open
+        self._real = {n: getattr(os, n) for n in ("mkdir", "rename", "replace", "remove", "rmdir", "unlink", "makedirs")}
+
+    def _inside(self, path):
+        try:
+            p = os.path.abspath(os.fsdecode(path))
+        except TypeError:
+            return False
+        return p == self.base or p.startswith(self.base + os.sep)
+
+    def _op(self, kind, path, n=0, dst=None):
+        if self.crashed:
+            raise CrashNow()
+        idx = len(self.ops)
+        rel = os.path.relpath(os.fsdecode(path), self.base)
+        if dst is not None:
+            self.targets.add(os.path.relpath(os.fsdecode(dst), self.base))
+        self.targets.add(rel)
+        self.ops.append((kind, rel, n))
+        if self.crash_at is not None and self.crash_at[0] == idx:
+            if self.crash_at[1] == "before":
+                self.crashed = True
+                raise CrashNow()
+            return "half"
+        return None
+
+    def open(self, file, mode="r", *a, **kw):
+        if isinstance(file, (str, bytes, os.PathLike)) and any(c in mode for c in "wax+") and self._inside(file):
+            return _CrashFile(self, os.fsdecode(file), mode)
+        return self._real_open(file, mode, *a, **kw)
+
+    def _wrap(self, name):
+        real = self._real[name]
+
+        def f(path, *a, **kw):
+            if self._inside(path):
+                self._op(name, path, dst=a[0] if (a and name in ("rename", "replace")) else None)
+            return real(path, *a, **kw)
+
+        return f
+
+    def __enter__(self):
+        self._patches = [mock.patch.object(builtins, "open", self.open)]
+        for n in self._real:
+            self._patches.append(mock.patch.object(os, n, self._wrap(n)))
+        for p in self._patches:
+            p.start()
+        return self
+
+    def __exit__(self, *a):
+        for p in reversed(self._patches):
+            p.stop()
+        return False
